@@ -318,6 +318,18 @@ static TransportConfig clientCfg(bool enabled, bool verify, const std::string &a
 }
 
 // engine as TLS client
+template <class T>
+static auto connectNamed(T &tr, const std::string &addr, std::uint16_t port, std::chrono::milliseconds to, const std::string &name, int)
+  -> decltype(tr.connectSync(addr, port, TlsMode::Client, to, name))
+{
+  return tr.connectSync(addr, port, TlsMode::Client, to, name);
+}
+template <class T>
+static ConnectResult connectNamed(T &tr, const std::string &addr, std::uint16_t port, std::chrono::milliseconds to, const std::string &, long)
+{
+  return tr.connectSync(addr, port, TlsMode::Client, to);
+}
+
 static std::string caseClient(std::map<std::string, std::string> a)
 {
   RawServer srv;
@@ -339,7 +351,11 @@ static std::string caseClient(std::map<std::string, std::string> a)
     cv.notify_all();
   });
   if (!tr->start().isOk()) { srv.join(); relay.join(); return "STARTFAIL"; }
-  auto r = tr->connectSync(a["host"] == "name" ? "localhost" : "127.0.0.1", relay.port, TlsMode::Client, std::chrono::milliseconds(3000));
+  // host=ipname: the connection goes to the address on behalf of the name (Transport::connectSync with a TLS server
+  // name, added with the repair of C07-F11b2; detected, so that this harness still builds on a tree without it)
+  auto r = a["host"] == "ipname"
+             ? connectNamed(*tr, "127.0.0.1", relay.port, std::chrono::milliseconds(3000), "localhost", 0)
+             : tr->connectSync(a["host"] == "name" ? "localhost" : "127.0.0.1", relay.port, TlsMode::Client, std::chrono::milliseconds(3000));
   bool conn = r.isOk(), data = false;
   if (conn)
   {
